@@ -199,7 +199,7 @@ def run_matrix(case):
 # ------------------------------------------------------------------------------------------------------
 @st.composite
 def _case_hist(draw):
-    c = draw(_base(max_len=8))
+    c = draw(_base(max_len=11))
     c['use_c'] = draw(st.booleans())
     c['tau'] = draw(st.sampled_from([0.1, 0.36, 0.5, 0.8, 1.0]))
     c['delta'] = draw(st.sampled_from([-0.1, -0.36, -0.72, -2.0]))
@@ -331,9 +331,25 @@ def run_hist(case):
     return res
 
 
+def _all_shapes(nmax):
+    """Every (len1, len2, window, only_triu) up to nmax with one fixed data pattern: where a band cell lives in the
+    compact layout, and where it is put back by the expansion, depends on the shape only."""
+    out = []
+    for l1 in range(1, nmax + 1):
+        for l2 in range(1, nmax + 1):
+            for w in list(range(1, max(l1, l2) + 1)) + [None]:
+                for triu in (False, True):
+                    out.append({'s1': [((i * 7) % 5) / 2.0 for i in range(l1)], 's2': [((j * 3 + 1) % 5) / 2.0 for j in range(l2)],
+                                'gamma': 1.0, 'tau': 0.36, 'delta': -0.36, 'delta_factor': 0.5, 'penalty': 0.05,
+                                'window': w, 'only_triu': triu, 'layout': 'C'})
+    return out
+
+
 def legs(tier):
-    return [Leg('matrix', _base(), run_matrix, 10000, 100000, max_shrink_buckets=8),
-            Leg('history', _case_hist(), run_hist, 2400, 24000, max_shrink_buckets=6)]
+    nmax = 13 if tier == 'quick' else 22
+    return [Leg('matrix', _base(max_len=12 if tier == 'quick' else 18), run_matrix, 10000, 100000, max_shrink_buckets=8),
+            Leg('history', _case_hist(), run_hist, 2400, 24000, max_shrink_buckets=6),
+            Leg('all-shapes', None, run_matrix, 0, 0, cases=lambda: _all_shapes(nmax))]
 
 
 REGIONS = {}
